@@ -24,26 +24,29 @@ class SeismicZfpBackendArray(BackendArray):
         )
 
     def _raw_indexing_method(self, key: tuple) -> np.typing.ArrayLike:
+        # key holds one int or slice (any step) per axis. Read the bounding box of the request,
+        # then apply the steps and drop the integer-indexed axes, as numpy basic indexing would.
+        bounds, post = [], []
+        for k, n in zip(key, self.shape):
+            if isinstance(k, slice):
+                idx = range(*k.indices(n))
+                if len(idx) == 0:
+                    shape = tuple(len(range(*kk.indices(nn))) for kk, nn in zip(key, self.shape)
+                                  if isinstance(kk, slice))
+                    return np.zeros(shape, dtype=self.dtype)
+                lo, hi = min(idx[0], idx[-1]), max(idx[0], idx[-1]) + 1
+                stop = idx[-1] - lo + (1 if idx.step > 0 else -1)
+                post.append(slice(idx[0] - lo, stop if stop >= 0 else None, idx.step))
+            else:
+                lo = int(k) + n if k < 0 else int(k)
+                hi = lo + 1
+                post.append(0)
+            bounds.append((lo, hi))
 
-        min_il = key[0].start if isinstance(key[0], slice) else key[0]
-        min_xl = key[1].start if isinstance(key[1], slice) else key[1]
-        min_z = key[2].start if isinstance(key[2], slice) else key[2]
-
-        min_il = 0 if min_il is None else min_il
-        min_xl = 0 if min_xl is None else min_xl
-        min_z = 0 if min_z is None else min_z
-
-        max_il = key[0].stop if isinstance(key[0], slice) else key[0] + 1
-        max_xl = key[1].stop if isinstance(key[1], slice) else key[1] + 1
-        max_z = key[2].stop if isinstance(key[2], slice) else key[2] + 1
-
-        max_il = self.sgz_reader.n_ilines if max_il is None else max_il
-        max_xl = self.sgz_reader.n_xlines if max_xl is None else max_xl
-        max_z = self.sgz_reader.n_samples if max_z is None else max_z
-
-        return self.sgz_reader.read_subvolume(min_il=min_il, max_il=max_il,
-                                              min_xl=min_xl, max_xl=max_xl,
-                                              min_z=min_z,   max_z=max_z)
+        subvolume = self.sgz_reader.read_subvolume(min_il=bounds[0][0], max_il=bounds[0][1],
+                                                   min_xl=bounds[1][0], max_xl=bounds[1][1],
+                                                   min_z=bounds[2][0], max_z=bounds[2][1])
+        return subvolume[tuple(post)]
 
 
 class SeismicZfpBackendEntrypoint(BackendEntrypoint):
